@@ -35,6 +35,9 @@ def handle (j : Json) : Json :=
         | (.error _, l)      => (l, acc.2.1, acc.2.2 ++ [Json.str "Error"])
         | (.none, l)         => (l, acc.2.1, acc.2.2 ++ [Json.null])
         | (.slots ss, l)     => (l, acc.2.1 ++ [(asNat a[1]!, ss)], acc.2.2 ++ [jl (ss.map slotJson)])
+      else if asStr a[0]! == "update" then
+        -- a repeated pilot update: the node list the application holds is not touched
+        (acc.1, acc.2.1, acc.2.2 ++ [Json.str "updated"])
       else if asStr a[0]! == "alloc" then
         match allocApp acc.1 (asNat a[2]!) (slotOf a[3]!) with
         | some l => (l, acc.2.1 ++ [(asNat a[1]!, [slotOf a[3]!])], acc.2.2 ++ [Json.str "ok"])
